@@ -58,7 +58,7 @@ def value_tags(t, v, codec):
             nbytes = (max(v, -v - 1).bit_length() // 8) + 1
             if nbytes >= 16384 and (open_ or not inroot):
                 tags.add('unfragmented')
-        if k in ('octs', 'bits', 'str', 'seqof') and t['size']:
+        if k in ('octs', 'bits', 'str', 'seqof', 'setof') and t['size']:
             lo, hi, ext = t['size']
             n = v[1] if k == 'bits' else len(v)
             if ext and hi is None:
